@@ -296,7 +296,9 @@ def run(chk, tier):
     e4 = Engine(prog, inline_depth=0)
     st = St()
     outs = e4.run(fi, [('sym', 'probes'), ('sym', 'awaited_ttl')], st)
-    cl = sorted(c['path'] for c in prog.fns.values() if c.get('parent') == fi['path'] and c['kind'] == 'Closure')
+    # the closures written directly in is_forward_loss that take a probe slot (closures nested inside them are evaluated as part of them)
+    cl = sorted(c['path'] for c in prog.fns.values() if c.get('parent') == fi['path'] and c['kind'] == 'Closure' and
+                re.fullmatch(re.escape(fi['path']) + r'::\{closure#\d+\}', c['path']) and 'ProbeStatus' in c['locals'][2]['ty'])
     okv = len(outs) >= 1 and len(cl) == 2
     names = [short(c[1]) for o in outs for c in user_calls(o)]
     ret = {vshow(o.value) for o in outs}
@@ -304,7 +306,7 @@ def run(chk, tier):
         okv = False
     # the `all` closure: true exactly for Awaited | Skipped
     PSV = prog.variant_names(PS)
-    e5 = Engine(prog, inline_depth=1)
+    e5 = Engine(prog, inline_depth=2)
     all_ok = skip_ok = None
     for c in cl:
         cf = prog.fns[c]
